@@ -128,6 +128,34 @@ theorem inv_gc {h : Heap} (hinv : Inv h) {i : Nat} (hh : held h i = false) :
     obtain ⟨a, b⟩ := hinv.closed p j hl0 hf hj
     exact ⟨by rw [hflg]; exact a, by unfold parentsOf at b ⊢; rw [hpar]; exact b⟩
 
+theorem mem_setKid (kids : List (String × Nat)) (k : String) (j x : Nat)
+    (hx : x ∈ (setKid kids k j).map (·.2)) : x ∈ kids.map (·.2) ∨ x = j := by
+  unfold setKid at hx
+  split at hx
+  · simp only [List.map_map, List.mem_map, Function.comp] at hx
+    obtain ⟨e, he, hx⟩ := hx
+    split at hx
+    · exact .inr hx.symm
+    · exact .inl (List.mem_map.mpr ⟨e, he, hx⟩)
+  · simp only [List.map_append, List.mem_append, List.map_cons, List.map_nil, List.mem_singleton] at hx
+    rcases hx with hx | hx
+    · exact .inl hx
+    · exact .inr hx
+
+theorem setKid_ne_nil (kids : List (String × Nat)) (k : String) (j : Nat) : setKid kids k j ≠ [] := by
+  unfold setKid
+  split
+  · rename_i h
+    cases kids with
+    | nil => simp at h
+    | cons a l => simp
+  · simp
+
+theorem mem_filter_snd {α} (l : List (String × α)) (p : String × α → Bool) (x : α)
+    (hx : x ∈ (l.filter p).map (·.2)) : x ∈ l.map (·.2) := by
+  obtain ⟨e, he, hx⟩ := List.mem_map.mp hx
+  exact List.mem_map.mpr ⟨e, (List.mem_filter.mp he).1, hx⟩
+
 /-- what a storage-dict update can do to a node: lock bookkeeping untouched, entries only dropped / renamed,
 or the one entry named by `addKid` added -/
 theorem applyEff_spec (n n' : LNode) (e : Eff) (h : applyEff n e = some n') :
@@ -137,26 +165,18 @@ theorem applyEff_spec (n n' : LNode) (e : Eff) (h : applyEff n e = some n') :
   cases e with
   | addLeaf k o =>
     simp only [applyEff, Option.some.injEq] at h; subst h
-    refine ⟨rfl, rfl, rfl, rfl, fun x hx => ?_, by simp [Eff.isWrite]⟩
-    simp only [delKey, List.mem_map, List.mem_filter] at hx ⊢
-    obtain ⟨e, he, hx⟩ := hx
-    exact .inl ⟨e, he.1, hx⟩
+    exact ⟨rfl, rfl, rfl, rfl, fun x hx => .inl (mem_filter_snd _ _ x hx), by simp [Eff.isWrite]⟩
   | addKid k j =>
     simp only [applyEff, Option.some.injEq] at h; subst h
     refine ⟨rfl, rfl, rfl, rfl, fun x hx => ?_, by simp [Eff.isWrite]⟩
-    simp only [delKey, List.mem_map, List.mem_filter, List.mem_append, List.mem_singleton] at hx ⊢
-    obtain ⟨e, he, hx⟩ := hx
-    rcases he with he | he
-    · exact .inl ⟨e, he.1, hx⟩
-    · subst he; simp at hx; subst hx; exact .inr ⟨k, rfl⟩
+    rcases mem_setKid _ _ _ _ hx with hx | hx
+    · exact .inl hx
+    · subst hx; exact .inr ⟨k, rfl⟩
   | del k =>
     simp only [applyEff] at h
     split at h
     · simp only [Option.some.injEq] at h; subst h
-      refine ⟨rfl, rfl, rfl, rfl, fun x hx => ?_, by simp [Eff.isWrite]⟩
-      simp only [delKey, List.mem_map, List.mem_filter] at hx ⊢
-      obtain ⟨e, he, hx⟩ := hx
-      exact .inl ⟨e, he.1, hx⟩
+      exact ⟨rfl, rfl, rfl, rfl, fun x hx => .inl (mem_filter_snd _ _ x hx), by simp [Eff.isWrite]⟩
     · cases h
   | rename k k' =>
     simp only [applyEff] at h
@@ -165,27 +185,27 @@ theorem applyEff_spec (n n' : LNode) (e : Eff) (h : applyEff n e = some n') :
     · split at h
       · simp only [Option.some.injEq] at h; subst h
         exact ⟨rfl, rfl, rfl, rfl, fun x hx => .inl hx, fun _ => rfl⟩
-      · simp only [Option.some.injEq] at h; subst h
-        refine ⟨rfl, rfl, rfl, rfl, fun x hx => ?_, by simp [Eff.isWrite]⟩
-        simp only [delKey, List.mem_map, List.mem_filter] at hx ⊢
-        obtain ⟨e, ⟨e0, he0, he⟩, hx⟩ := hx
-        refine .inl ⟨e0, he0.1, ?_⟩
-        subst he; rw [← hx]; split <;> rfl
+      · split at h
+        · rename_i e hfind
+          simp only [Option.some.injEq] at h; subst h
+          refine ⟨rfl, rfl, rfl, rfl, fun x hx => ?_, by simp [Eff.isWrite]⟩
+          rcases mem_setKid _ _ _ _ hx with hx | hx
+          · exact .inl (mem_filter_snd _ _ x hx)
+          · subst hx
+            exact .inl (List.mem_map.mpr ⟨e, List.mem_of_find?_eq_some hfind, rfl⟩)
+        · split at h
+          · simp only [Option.some.injEq] at h; subst h
+            exact ⟨rfl, rfl, rfl, rfl, fun x hx => .inl (mem_filter_snd _ _ x hx), by simp [Eff.isWrite]⟩
+          · cases h
   | keep ks =>
     simp only [applyEff] at h
     split at h
     · simp only [Option.some.injEq] at h; subst h
-      refine ⟨rfl, rfl, rfl, rfl, fun x hx => ?_, by simp [Eff.isWrite]⟩
-      simp only [List.mem_map, List.mem_filter] at hx ⊢
-      obtain ⟨e, he, hx⟩ := hx
-      exact .inl ⟨e, he.1, hx⟩
+      exact ⟨rfl, rfl, rfl, rfl, fun x hx => .inl (mem_filter_snd _ _ x hx), by simp [Eff.isWrite]⟩
     · cases h
   | drop ks =>
     simp only [applyEff, Option.some.injEq] at h; subst h
-    refine ⟨rfl, rfl, rfl, rfl, fun x hx => ?_, by simp [Eff.isWrite]⟩
-    simp only [List.mem_map, List.mem_filter] at hx ⊢
-    obtain ⟨e, he, hx⟩ := hx
-    exact .inl ⟨e, he.1, hx⟩
+    exact ⟨rfl, rfl, rfl, rfl, fun x hx => .inl (mem_filter_snd _ _ x hx), by simp [Eff.isWrite]⟩
   | clear =>
     simp only [applyEff, Option.some.injEq] at h; subst h
     exact ⟨rfl, rfl, rfl, rfl, fun x hx => by simp at hx, by simp [Eff.isWrite]⟩
